@@ -47,7 +47,7 @@ fn rel_path(id: &str, ext: Option<&str>) -> String {
     p
 }
 impl FsTree {
-    fn add_file(&mut self, id: &str, ext: &str, data: Vec<u8>) {
+    pub fn add_file(&mut self, id: &str, ext: &str, data: Vec<u8>) {
         self.files.insert(fk(id, ext), data);
         let mut p = parent(id);
         while let Some(d) = p {
@@ -237,7 +237,7 @@ fn members(t: &FsTree, o: &ArcOpts) -> Vec<(bool, String)> {
     }
     v
 }
-fn build_tar(t: &FsTree, o: &ArcOpts) -> Vec<u8> {
+pub fn build_tar(t: &FsTree, o: &ArcOpts) -> Vec<u8> {
     let mut b = tar::Builder::new(Vec::new());
     for (is_dir, p) in members(t, o) {
         let mut h = if o.gnu { tar::Header::new_gnu() } else { tar::Header::new_ustar() };
@@ -272,7 +272,7 @@ fn build_tar(t: &FsTree, o: &ArcOpts) -> Vec<u8> {
     }
     b.into_inner().unwrap()
 }
-fn build_zip(t: &FsTree, o: &ArcOpts) -> Vec<u8> {
+pub fn build_zip(t: &FsTree, o: &ArcOpts) -> Vec<u8> {
     let mut w = zip::ZipWriter::new(io::Cursor::new(Vec::new()));
     let opt = zip::write::FileOptions::default().compression_method(if o.deflate { zip::CompressionMethod::Deflated } else { zip::CompressionMethod::Stored });
     for (is_dir, p) in members(t, o) {
@@ -286,7 +286,7 @@ fn build_zip(t: &FsTree, o: &ArcOpts) -> Vec<u8> {
     }
     w.finish().unwrap().into_inner()
 }
-fn write_dir(t: &FsTree, root: &Path) {
+pub fn write_dir(t: &FsTree, root: &Path) {
     std::fs::create_dir_all(root).unwrap();
     for d in &t.dirs {
         std::fs::create_dir_all(root.join(rel_path(d, None))).unwrap();
@@ -299,7 +299,7 @@ fn write_dir(t: &FsTree, root: &Path) {
     }
 }
 /// Run the real `embed!` macro code on `root` and interpret the token stream it produces.
-fn build_embedded(root: &Path) -> Embedded<'static> {
+pub fn build_embedded(root: &Path) -> Embedded<'static> {
     let lit = format!("{:?}", root.to_str().unwrap());
     let input: embedded_macro::Input = syn::parse_str(&lit).expect("macro input");
     let ts = input.expand_dir().unwrap_or_else(|e| panic!("embed! reported {} errors", e.len()));
@@ -532,11 +532,11 @@ impl Property for C04 {
 }
 
 static DIRNO: AtomicU64 = AtomicU64::new(0);
-fn scratch() -> PathBuf {
+pub fn scratch() -> PathBuf {
     let base = scratch_base();
     base.join(format!("simcheck-c04-{}-{}", std::process::id(), DIRNO.fetch_add(1, Ordering::Relaxed)))
 }
-struct RmOnDrop(PathBuf);
+pub struct RmOnDrop(pub PathBuf);
 impl Drop for RmOnDrop {
     fn drop(&mut self) {
         let _ = std::fs::remove_dir_all(&self.0);
